@@ -606,7 +606,8 @@ func hardenSchema(r *Rng, s *QSchema) {
 	if r.Chance(45) {
 		s.Tables[2].Cols = append(s.Tables[2].Cols, PCol{q("order"), "int", r.Chance(50), false})
 	}
-	if r.Chance(25) {
+	if r.Chance(25) && s.Engine != "mysql" {
+		// (MySQL column names are case-insensitive: a mixed-case name needs no quoting there)
 		s.Tables[0].Cols = append(s.Tables[0].Cols, PCol{q("Mixed"), "text", r.Chance(50), false})
 	}
 	if r.Chance(25) {
